@@ -753,7 +753,11 @@ class Extractor:
         positive = None
         if isinstance(thr, ast.Constant) and isinstance(thr.value, (int, float)):
             positive = thr.value > 0
-        elif "finfo" in txt and txt.split(".")[-1] in ("eps", "tiny", "resolution", "smallest_normal"):
+            if 0 < thr.value <= 1e-100:
+                raise _NoOpStore()  # a flush of (sub)denormal magnitudes: below anything the polynomial factors (<< 1e100) can lift to 1e-8
+        elif "finfo" in txt and txt.split(".")[-1] in ("tiny", "smallest_normal"):
+            raise _NoOpStore()  # 2.2e-308: same
+        elif "finfo" in txt and txt.split(".")[-1] in ("eps", "resolution"):
             positive = True
         if positive is None:
             return
@@ -810,6 +814,17 @@ class Extractor:
     def expr(self, e):
         if e is None:
             return None
+        if isinstance(e, ast.IfExp):
+            # `a if flag else b` with a flag that is decided on this path (a constant, or the outcome of a forked scalar branch)
+            tv = self.expr(e.test)
+            if isinstance(tv, bool):
+                return self.expr(e.body if tv else e.orelse)
+            if isinstance(tv, SV) and not tv.labels and tv.e.has(sp.Function("Indicator")) and self.shared.get("choices") is not None:
+                key = f"{self.func.name}:{e.lineno}"
+                if key not in self.shared["choices"]:
+                    raise NeedFork(key, e)
+                return self.expr(e.body if self.shared["choices"][key] else e.orelse)
+            self.err("conditional expression on a value that is not decided on this path", e)
         if isinstance(e, ast.Constant):
             v = e.value
             if isinstance(v, bool) or v is None:
